@@ -49,10 +49,13 @@ def len_spec(allow_over=True):
 # ---------------------------------------------------------- T1T / T2T layouts
 def ctrl_tlv():
     bpp = st.sampled_from([2, 3, 3, 4, 4, 4, 5, 6, 7, 8])
-    small = st.one_of(st.integers(1, 12), st.integers(0, 255))
+    small = st.one_of(st.integers(1, 12), st.integers(0, 255),
+                      st.sampled_from([0, 255]))   # 0 stands for 256 bytes
     lock = st.fixed_dictionaries({
         "t": st.just(1), "page": st.integers(0, 15), "offs": st.integers(0, 15),
-        "size": st.one_of(st.integers(1, 64), st.integers(0, 255)),
+        # 0 stands for 256 lock bits (32 lock bytes)
+        "size": st.one_of(st.integers(1, 64), st.integers(0, 255),
+                          st.sampled_from([0, 0, 255, 248])),
         "bpp": bpp})
     mem = st.fixed_dictionaries({
         "t": st.just(2), "page": st.integers(0, 15), "offs": st.integers(0, 15),
